@@ -745,3 +745,12 @@ def g10(ctx):
 
 
 RULES.append(g10)
+
+
+@rule("G11", doc="an invocation padded to the syntactic slots of its class stays a bijection: every missing slot gets its own Slot::fresh() (C03.H10) — with a shared one the assertion in AppliedId::new panics inside a union that asserts a symmetry of a class with two redundant slots (explanations + checks builds)")
+def g11_h10(ctx):
+    from . import c03
+    c03.h10(ctx)
+
+
+RULES.append(g11_h10)
